@@ -80,8 +80,8 @@ func optRoles(prog *Program) *optRolesT {
 				}
 			}
 		case sig.Results().Len() == 1 && types.Identical(sig.Results().At(0).Type(), r.optionsT):
-			if sig.Variadic() && sig.Params().Len() == 1 {
-				r.getOpts = sf
+			if sig.Params().Len() == 1 && isOptionList(sig.Params().At(0).Type()) {
+				r.getOpts = sf // (...Option) or ([]Option)
 			} else if sig.Params().Len() == 0 {
 				r.getDefault = sf
 			}
